@@ -43,6 +43,7 @@ ASSUMPTIONS = [
 ]
 TRUSTED = ["harness/props/c08.py Fraction oracle for the true landscape (cross-checked against the driver's pl.lambda.grid on every run)"]
 TOL = 1e-9
+DEFAULT_STEPS = 500
 
 
 # ----------------------------------------------------------------------------- real code
@@ -64,18 +65,25 @@ def canon_values(v):
     return v.tolist()
 
 
-def code_approx(dgms, hd, start, stop, n):
+def code_approx(dgms, hd, start, stop, n, grid_out=None):
     PLA = common.pm("landscapes.approximate").PersLandscapeApprox
-    st, v, _ = _quiet(lambda: PLA(dgms=[arr(d) for d in dgms], hom_deg=hd, start=start, stop=stop, num_steps=n).values)
-    return "err:" + v if st == "err" else canon_values(v)
+    kw = {} if n == DEFAULT_STEPS else {"num_steps": n}      # 500 is the default: leave it to the code
+    st, v, _ = _quiet(lambda: PLA(dgms=[arr(d) for d in dgms], hom_deg=hd, start=start, stop=stop, **kw))
+    if st == "err":
+        return "err:" + v
+    if grid_out is not None:
+        grid_out.extend([v.start, v.stop, v.num_steps])
+    return canon_values(v.values)
 
 
 def code_transform(dgms, hd, start, stop, n, flatten, fit):
     T = common.pm("landscapes.transformer").PersistenceLandscaper
     X = [arr(d) for d in dgms]
 
+    kw = {} if n == DEFAULT_STEPS else {"num_steps": n}
+
     def go():
-        t = T(hom_deg=hd, start=start, stop=stop, num_steps=n, flatten=flatten)
+        t = T(hom_deg=hd, start=start, stop=stop, flatten=flatten, **kw)
         if fit == "fit_transform":
             return t.fit_transform(X)
         if fit == "fit+transform":
@@ -88,8 +96,9 @@ def code_transform(dgms, hd, start, stop, n, flatten, fit):
 def code_vectorize(cps, start, stop, n):
     PLE = common.pm("landscapes.exact").PersLandscapeExact
     vec = common.pm("landscapes.tools").vectorize
+    kw = {} if n == DEFAULT_STEPS else {"num_steps": n}
     st, v, _ = _quiet(lambda: vec(PLE(critical_pairs=[[list(p) for p in d] for d in cps], hom_deg=0),
-                                  start=start, stop=stop, num_steps=n).values)
+                                  start=start, stop=stop, **kw).values)
     return "err:" + v if st == "err" else canon_values(v)
 
 
@@ -220,6 +229,8 @@ def gen_generic(ctx):
     hd = r.randrange(len(dgms))
     bars = finite_bars(dgms[hd])
     n = r.choice([2, 2, 3, 3, 4, 5, 6, 7, 8, 9, 10, 12, 16, 17, 25, 33, 40] + ([64, 100, 129, 300] if ctx.thorough else []))
+    if r.random() < 0.04:
+        n = r.choice([129, DEFAULT_STEPS])
     kind = r.choice(["default", "default", "cover", "over", "over", "partial", "integer"])
     if not bars and kind == "default" and r.random() < 0.8:
         kind = "over"
@@ -332,9 +343,19 @@ def approx_line(c):
 
 def check_approx_case(ctx, c, model, corr_failures):
     """one PersLandscapeApprox case: the property on the real code, then code against model"""
-    code = code_approx(c["dgms"], c["hom_deg"], c["start"], c["stop"], c["n"])
+    used = []
+    code = code_approx(c["dgms"], c["hom_deg"], c["start"], c["stop"], c["n"], used)
     grid = resolved_grid(c)
     bars = finite_bars(c["dgms"][c["hom_deg"]]) if grid else []
+    if used and grid is not None:
+        # the grid the object reports: the one given, else [min birth, max death] of the finite bars (so that it covers them)
+        okg = float(used[0]) == grid[0] and float(used[1]) == grid[1] and used[2] == c["n"]
+        ctx.test("grid_is_given_or_tight_default", okg)
+        if not okg:
+            ctx.violation("PersLandscapeApprox uses the grid [%r, %r] x %r instead of [%r, %r] x %r (given values, else min birth / max death)"
+                          % (used[0], used[1], used[2], grid[0], grid[1], c["n"]), dict(c, code=code), found_input=True,
+                          law="grid_is_given_or_tight_default")
+            return False
     nontriv = len(bars) >= 2 and isinstance(code, list)
     ctx.case({k: c[k] for k in ("op", "dgms", "hom_deg", "start", "stop", "n")}, nontriv, sample_every=211)
     ctx.count("approx:" + c["kind"])
@@ -390,9 +411,9 @@ def stream_approx(ctx, corr_failures):
         {"op": "approx", "dgms": [[[0.1, 0.7], [0.2, 0.9]]], "hom_deg": 0, "start": 0.0, "stop": 1.0, "n": 11, "kind": "corpus", "exact": False},
     ]
     cases = list(corpus)
-    for _ in range(ctx.n(900, 9000)):
+    for _ in range(ctx.n(2200, 9000)):
         cases.append(gen_generic(ctx))
-    for _ in range(ctx.n(900, 9000)):
+    for _ in range(ctx.n(2200, 9000)):
         cases.append(gen_exact(ctx))
     for _ in range(ctx.n(40, 200)):
         cases.append(gen_malformed(ctx))
@@ -418,7 +439,7 @@ def stream_approx(ctx, corr_failures):
 def stream_transform(ctx, corr_failures):
     r = ctx.rng
     cases = []
-    for i in range(ctx.n(400, 4000)):
+    for i in range(ctx.n(900, 4000)):
         c = gen_exact(ctx) if i % 2 else gen_generic(ctx)
         c["dgms"] = [finite_bars(d) for d in c["dgms"]]
         if r.random() < 0.05:
@@ -487,7 +508,7 @@ def stream_vectorize(ctx, corr_failures):
     r = ctx.rng
     PLE = common.pm("landscapes.exact").PersLandscapeExact
     cases = []
-    for i in range(ctx.n(400, 4000)):
+    for i in range(ctx.n(900, 4000)):
         if i % 3 == 2:
             cps, src = synth_cps(ctx), "synthetic"
         else:
@@ -504,6 +525,8 @@ def stream_vectorize(ctx, corr_failures):
         span = (hi - lo) or 1.0
         kind = r.choice(["default", "cover", "over", "partial", "bad"]) if r.random() < 0.9 else "default"
         n = r.choice([1, 2, 3, 5, 8, 9, 17, 33, 40] + ([129, 300] if ctx.thorough else []))
+        if r.random() < 0.04:
+            n = DEFAULT_STEPS
         if kind == "default":
             s = e = None
         elif kind == "cover":
@@ -549,7 +572,7 @@ def stream_vectorize(ctx, corr_failures):
 def stream_death(ctx, corr_failures):
     r = ctx.rng
     cases = []
-    for _ in range(ctx.n(300, 3000)):
+    for _ in range(ctx.n(600, 3000)):
         dgms = gen_dgms(ctx, ctx.n(10, 40), inf_p=0.5)
         hd = 0 if r.random() < 0.9 else r.randint(1, 2)
         cases.append({"op": "death", "dgms": dgms, "hom_deg": hd})
@@ -622,13 +645,19 @@ def replay(ctx, rep):
         c = c["input"]
     op = c.get("op")
     if op == "approx":
-        code = code_approx(c["dgms"], c["hom_deg"], c["start"], c["stop"], c["n"])
-        print("code:", _short(code, 2000))
+        used = []
+        code = code_approx(c["dgms"], c["hom_deg"], c["start"], c["stop"], c["n"], used)
+        print("code:", _short(code, 2000), "grid used:", used)
         g = resolved_grid(c)
-        if g is None or isinstance(code, str) and code != "empty":
+        if g is None:
             return True
+        if used and not (float(used[0]) == g[0] and float(used[1]) == g[1] and used[2] == c["n"]):
+            print("expected grid:", g, c["n"])
+            return False
         bars = finite_bars(c["dgms"][c["hom_deg"]])
-        if c["n"] >= 2 and g[0] < g[1] and covers(bars, g[0], g[1]):
+        if c["n"] >= 2 and g[0] <= g[1] and covers(bars, g[0], g[1]):
+            if isinstance(code, str) and code != "empty":
+                return False
             ok, detail, _ = bound_check(code, bars, g[0], g[1], c["n"])
             print("bound:", detail)
             return ok
